@@ -169,6 +169,10 @@ legal = {
     "call-shapes": "const o = { x: 1 }; const arr = [o];\nconst C1 = defineComponent((p: { a: 1 }) => {}, { name: 'N', props: {} });\nconst C2 = defineComponent((p: { a: 1 }) => {}, o);\nconst C3 = defineComponent((p: { a: 1 }) => {}, ...arr);\nconst C4 = defineComponent(...arr);\nconst C5 = defineComponent();\nconst C6 = defineComponent({ setup() {} });\nconst C7 = defineComponent(function named(p: { a: 1 }, c: SetupContext<{ (e: 'x'): void }>) {}, { emits: ['y'], ['name']: 'Z' });\nlet C8; C8 = defineComponent((p: { a: 1 }) => {});\nconst { C9 } = defineComponent((p: { a: 1 }) => {});\nexport default defineComponent((p: { a: 1 }) => {});\nfunction scope() { const defineComponent = (x: any) => x; return defineComponent((p: { a: 1 }) => {}); }\nconst C10 = defineComponent(async (p: { a: 1 }) => {}), C11 = defineComponent((p) => {}), C12 = defineComponent((...r: [{ a: 1 }]) => {});",
     "scoped-types": "type T = { top: string };\nfunction f() { type T = { inner: number }; return defineComponent((p: T) => {}); }\nconst g = () => { interface T { arrow: boolean } return defineComponent((p: T) => {}); };\ndefineComponent((p: T) => {});\ninterface M { a: 1 } interface M { b: 2 }\ndefineComponent((p: M) => {});\ndefineComponent((p: Later) => {});\ntype Later = { l: 1 };",
 }
+# far deeper than any nesting limit: whatever the pass does with it must not depend on how much stack the host thread has
+legal["chain-2000"] = "".join(f"type A{i} = A{i+1}; " for i in range(2000)) + "type A2000 = { x: string };\ndefineComponent((p: A0) => {});\ndefineComponent((p: { a: A1500 }) => {});"
+legal["extends-chain-1500"] = "".join(f"interface I{i} extends I{i+1} {{ p{i}: number }} " for i in range(1500)) + "interface I1500 { last: string }\ndefineComponent((p: I0) => {});"
+legal["paren-150"] = "type P = " + "(" * 150 + "{ a: string }" + ")" * 150 + ";\ndefineComponent((p: P) => {});\ndefineComponent((p: { q: P }) => {});"
 for n, body in legal.items():
     w(f"types/{n}.tsx", hdr + body, '{"resolveType":true,"optimize":true}')
 w("types/aliased-import.tsx", 'import { defineComponent as dc, defineComponent } from "vue";\nimport * as V from "vue";\ndc((p: { a: 1 }) => {});\nV.defineComponent((p: { a: 1 }) => {});\ndefineComponent((p: { a: 1 }) => {});', '{"resolveType":true}')
